@@ -12,10 +12,10 @@ ASSUMPTIONS = ["selection draw of exactly 0 (probability 2^-53) excluded: model 
 replay_mod = R
 
 def gen_case(rng, kind=None, rules=False):
-    kind = kind or rng.choice(["ssa", "ssa", "dssa", "vssa"])
+    kind = kind or rng.choice(["ssa", "ssa", "dssa", "vssa", "dvssa"])
     ma_only = rng.random() < 0.5
     kinds = ("massaction",) if ma_only else ("massaction",) + tuple(G.HILL) + ("general",)
-    spec = G.gen_network(rng, kinds=kinds, nrx=(1, 4), nsp=(1, 4), allow_delay=(kind == "dssa" or rng.random() < 0.25), max_order=3, integer_state=True, bounded=True,   # delayed parts in the other simulators too: applied at once (S3_C05)
+    spec = G.gen_network(rng, kinds=kinds, nrx=(1, 4), nsp=(1, 4), allow_delay=(kind in ("dssa", "dvssa") or rng.random() < 0.25), max_order=3, integer_state=True, bounded=True,   # delayed parts in the other simulators too: applied at once (S3_C05)
                          general_pool=["kg*%s", "kg*%s/(1+%s)", "kg+%s*0", "kg*%s*%s"])
     # keep event counts moderate
     for k in list(spec["parameters"]):
@@ -36,7 +36,9 @@ def gen_case(rng, kind=None, rules=False):
     # a quarter of the grids start AFTER the initial time 0 (events before the first requested time still happen -- S2_C05)
     off = rng.choice([0.5 * dt, dt, 3 * dt]) if rng.random() < 0.25 else 0.0
     case = {"spec": spec, "kind": kind, "safe": safe, "times": [off + i * dt for i in range(n)], "seed": rng.randint(1, 2**31)}
-    if kind == "vssa": case["volume"] = {"type": "base", "V0": rng.choice([0.25, 0.5, 1.0, 2.0, 4.0])}
+    if kind in ("vssa", "dvssa"): case["volume"] = {"type": "base", "V0": rng.choice([0.25, 0.5, 1.0, 2.0, 4.0])}
+    if kind == "dvssa" and rng.random() < 0.5:
+        case["volume"] = {"type": "tt", "cycle": rng.choice([1.0, 2.0, 4.0]), "avg": rng.choice([1.3, 2.0, 50.0]), "noise": rng.choice([0.0, 0.1]), "V0": 1.0}
     if rng.random() < 0.3: case["warmup"] = True       # a throwaway run on the same model / interface first
     return case
 
@@ -76,14 +78,14 @@ def oracle(case, r):
     cols_tot = [[a + b for a, b in zip(ci, cd)] for ci, cd in zip(cols_imm, cols_del)]
     x0 = [spec["x0"].get(s, 0.0) for s in names]
     if case["times"][0] == 0.0 and rows and rows[0] != x0: return "first row %r is not the initial condition %r" % (rows[0], x0)
-    cols = cols_tot if case["kind"] != "dssa" else cols_imm + cols_del
+    cols = cols_tot if case["kind"] not in ("dssa", "dvssa") else cols_imm + cols_del
     for k in range(len(rows)):
         if any(v != int(v) for v in rows[k]): return "integrality: row %d = %r from integer counts" % (k, rows[k])
         prev = x0 if k == 0 else rows[k - 1]
         diff = [int(a - b) for a, b in zip(rows[k], prev)]
         if any(diff) and not _decompose(diff, cols): return "lattice: row %d - row %d = %r is no non-negative integer combination of the net stoichiometries %r" % (k, k - 1, diff, cols)
     # conservation laws of S_tot hold at all rows for simulators without pending deliveries
-    if case["kind"] != "dssa":
+    if case["kind"] not in ("dssa", "dvssa"):
         for w in _small_conservation_laws(cols_tot, len(names)):
             c0 = sum(a * b for a, b in zip(w, x0))
             for k, row in enumerate(rows):
